@@ -1,13 +1,17 @@
 (* C18 — property theorems only.  Each is closed by [exact] of a lemma proved in
    C18/Proofs.v or C18/ProofsInst.v and followed by Print Assumptions. *)
-From MV Require Import C18.Model C18.Proofs C18.Instances C18.ProofsInst gen.Params_C18 C18.ProofsGen.
+From MV Require Import C18.Model C18.Proofs C18.Instances C18.ProofsInst gen.Params_C18 C18.Coverage C18.ProofsGen.
 
 (* A scenario (constructor / grower / inserter + its destroy) accepted by the
    decidable checker satisfies the property under EVERY fault function, single or
    multiple: no fault hit -> success, the object owns exactly what it should, and
    destroy releases everything; a fault hit -> failure is reported, nothing is
-   leaked (live = what was live before the call), no crash/hang/double free, and
-   the object is safe to destroy (destroy runs cleanly and leaves nothing live). *)
+   leaked (live = what was live before the call), no crash/hang/double free, the failed
+   call changed nothing (every resource live before is still live and still pointed to),
+   the object is safe to destroy (future A: destroy runs cleanly, leaves nothing live,
+   releases every stored value) AND safe to retry (future B: the retried operation
+   succeeds, the object is used further - s_cont: more operations up to and beyond the
+   old capacity -, destroy then leaves nothing live). *)
 Theorem alloc_failure_reported_leak_free_crash_free : forall sc,
   wf_scn sc = true -> forall f, holds sc f.
 Proof. exact wf_sound. Qed.
@@ -35,19 +39,34 @@ Theorem outcome_depends_only_on_consulted_faults : forall sc f g,
 Proof. exact run_scn_local. Qed.
 Print Assumptions outcome_depends_only_on_consulted_faults.
 
-(* Every transcribed instance of the (repaired) code is accepted by the checker,
-   except the recorded known finding (void muggle_socket_evloop_add_ctx). *)
+(* Every transcribed instance of the code as it is (ids outside 100..199) is accepted by the
+   checker, except the recorded known findings (void muggle_socket_evloop_add_ctx;
+   muggle_log_complicated_init dropping the handler's failure). *)
 Theorem all_instances_wf : forall id sc,
-  inst_by_id id = Some sc -> id < 100 -> in_known_class_void_add_ctx id = false -> wf_scn sc = true.
+  inst_by_id id = Some sc -> orig_id id = false -> in_known_class id = false -> wf_scn sc = true.
 Proof. exact instances_wf. Qed.
 Print Assumptions all_instances_wf.
 
-(* ... hence every instance satisfies the property under every fault function
-   (P_partial of the known-finding pattern). *)
+(* ... hence every instance satisfies the property under every fault function (P_partial of
+   the known-finding pattern).  The instances INSIDE a known class are not dropped: they
+   satisfy the property with only its "reports failure" clause removed (no_report). *)
 Theorem all_instances_hold_partial : forall id sc f,
-  inst_by_id id = Some sc -> id < 100 -> in_known_class_void_add_ctx id = false -> holds sc f.
-Proof. exact instances_hold. Qed.
+  inst_by_id id = Some sc -> orig_id id = false ->
+  holds (if in_known_class id then no_report sc else sc) f.
+Proof. exact instances_hold_gen. Qed.
 Print Assumptions all_instances_hold_partial.
+
+(* The same, spelled out for the known-class instances: under EVERY fault function no
+   crash / hang / double free, destroy releases all, success when no fault is hit, and a
+   hit fault leaks nothing (live = what was live before the call). *)
+Theorem known_class_instances_leak_free_crash_free : forall id sc f,
+  inst_by_id id = Some sc -> in_known_class id = true ->
+  let o := run_scn sc f in
+  o_bad o = false /\ o_dbad o = false /\ o_dlive o = [] /\
+  (hit f (o_att o) = false -> o_rc o = Ok /\ (forall r, In r (o_live o) <-> In r (s_owns sc))) /\
+  (hit f (o_att o) = true -> forall r, In r (o_live o) <-> In r (o_base o)).
+Proof. exact known_class_instances_hold. Qed.
+Print Assumptions known_class_instances_leak_free_crash_free.
 
 (* Every cleanup block / failure handler of every instance's operation is entered by the
    no-fault run or by some single-fault run (so the complete k enumeration compares each
@@ -67,10 +86,19 @@ Theorem void_socket_evloop_add_ctx_refuted :
 Proof. exact void_add_ctx_refuted. Qed.
 Print Assumptions void_socket_evloop_add_ctx_refuted.
 
-(* Every transcription of the UNCHANGED defective code (ids >= 100) violates the
+(* P_refuted of the second known finding: the fopen inside muggle_log_file_time_rot_handler_init
+   fails and muggle_log_complicated_init still answers 0. *)
+Theorem log_complicated_init_refuted :
+  exists id sc k, in_known_class_complicated_init id = true /\ inst_by_id id = Some sc /\
+                  ~ holds sc (single k) /\ o_rc (run_scn sc (single k)) = Ok /\
+                  hit (single k) (o_att (run_scn sc (single k))) = true.
+Proof. exact complicated_init_refuted. Qed.
+Print Assumptions log_complicated_init_refuted.
+
+(* Every transcription of the UNCHANGED defective code (ids 100..199) violates the
    property at a concrete single-fault position. *)
 Theorem unchanged_code_instances_refuted : forall id sc,
-  inst_by_id id = Some sc -> 100 <= id -> exists k, ~ holds sc (single k).
+  inst_by_id id = Some sc -> orig_id id = true -> exists k, ~ holds sc (single k).
 Proof. exact orig_instances_refuted. Qed.
 Print Assumptions unchanged_code_instances_refuted.
 
@@ -109,3 +137,22 @@ Theorem generated_programs_agree_with_instances :
                     end) gen_table = true.
 Proof. exact gen_table_agrees. Qed.
 Print Assumptions generated_programs_agree_with_instances.
+
+(* ---- the COVERAGE tie: allocating entry points of the whole library (gen/Params_C18.v) ---- *)
+
+(* Every function with external linkage under muggle/c from which an acquisition primitive is reachable
+   (clang AST of all .c files, regenerated on every run) is driven by the instance table with the faults
+   armed, or reached from a driven function through direct calls, or excluded with a written reason
+   (C18/Coverage.v); every acquiring callback has a driving instance; no exclusion is stale; no source
+   file failed to parse. *)
+Theorem every_allocating_entry_point_accounted_for : coverage_ok = true.
+Proof. exact coverage_holds. Qed.
+Print Assumptions every_allocating_entry_point_accounted_for.
+
+Theorem allocating_entry_points_driven_or_excluded : forall n,
+  In n (map fst alloc_entry_points) ->
+  In n driven_under_faults \/
+  (exists d, In (n, d) reached_through /\ In d driven_under_faults) \/
+  In n (map fst excluded).
+Proof. exact entry_points_accounted. Qed.
+Print Assumptions allocating_entry_points_driven_or_excluded.
